@@ -205,18 +205,45 @@ func init() {
 // records, alone in a block; whatever the result, the victims' records and balances are identical.
 func ownerScoped(c *run.Ctx, w *chain.World, st *mon.Stats) {
 	att := w.Users[11]
-	ctx := w.ReadCtx()
 	a := w.App
+	// the attacker owns pending orders of its own (far from the market) so that batch messages can
+	// mix its own ids with the victims', in either order
+	atom := w.Prices["ATOM"]
+	w.Step(5, w.Tx(att, &tstypes.MsgCreateSpotOrder{OrderType: tstypes.SpotOrderType_LIMITBUY, OrderPrice: tstypes.OrderPrice{BaseDenom: "uusdc", QuoteDenom: "uatom", Rate: math.LegacyOneDec().Quo(atom).QuoInt64(50)}, OrderAmount: chain.Coin("uusdc", 1_000_000), OwnerAddress: att.S(), OrderTargetDenom: "uatom"}),
+		w.Tx(att, &tstypes.MsgCreatePerpetualOpenOrder{OwnerAddress: att.S(), TriggerPrice: tstypes.TriggerPrice{TradingAssetDenom: "uatom", Rate: atom.QuoInt64(50)}, Collateral: chain.Coin("uusdc", 1_000_000), TradingAsset: "uatom", Position: tstypes.PerpetualPosition_LONG, Leverage: chain.Dec("2"), TakeProfitPrice: atom.MulInt64(3), StopLossPrice: math.LegacyZeroDec(), PoolId: 1}))
+	if w.Dead {
+		return
+	}
+	ctx := w.ReadCtx()
 	msgs := []sdk.Msg{}
+	ownSpot, ownPerp := []uint64{}, []uint64{}
+	for _, o := range a.TradeshieldKeeper.GetAllPendingSpotOrder(ctx) {
+		if o.OwnerAddress == att.S() {
+			ownSpot = append(ownSpot, o.OrderId)
+		}
+	}
+	for _, o := range a.TradeshieldKeeper.GetAllPendingPerpetualOrder(ctx) {
+		if o.OwnerAddress == att.S() {
+			ownPerp = append(ownPerp, o.OrderId)
+		}
+	}
 	for _, o := range a.TradeshieldKeeper.GetAllPendingSpotOrder(ctx) {
 		if o.OwnerAddress != att.S() {
 			msgs = append(msgs, &tstypes.MsgCancelSpotOrder{OwnerAddress: att.S(), OrderId: o.OrderId}, &tstypes.MsgUpdateSpotOrder{OwnerAddress: att.S(), OrderId: o.OrderId, OrderPrice: o.OrderPrice}, &tstypes.MsgCancelSpotOrders{Creator: att.S(), SpotOrderIds: []uint64{o.OrderId}})
+			if len(ownSpot) > 0 {
+				c.Ev("batch_mixing_own_and_foreign_ids")
+				msgs = append(msgs, &tstypes.MsgCancelSpotOrders{Creator: att.S(), SpotOrderIds: []uint64{ownSpot[0], o.OrderId}}, &tstypes.MsgCancelSpotOrders{Creator: att.S(), SpotOrderIds: []uint64{o.OrderId, ownSpot[0]}})
+			}
 			break
 		}
 	}
 	for _, o := range a.TradeshieldKeeper.GetAllPendingPerpetualOrder(ctx) {
 		if o.OwnerAddress != att.S() {
 			msgs = append(msgs, &tstypes.MsgCancelPerpetualOrder{OwnerAddress: att.S(), OrderId: o.OrderId}, &tstypes.MsgUpdatePerpetualOrder{OwnerAddress: att.S(), OrderId: o.OrderId, TriggerPrice: o.TriggerPrice}, &tstypes.MsgCancelPerpetualOrders{OwnerAddress: att.S(), OrderIds: []uint64{o.OrderId}})
+			if len(ownPerp) > 0 {
+				c.Ev("batch_mixing_own_and_foreign_ids")
+				msgs = append(msgs, &tstypes.MsgCancelPerpetualOrders{OwnerAddress: att.S(), OrderIds: []uint64{ownPerp[0], o.OrderId}}, &tstypes.MsgCancelPerpetualOrders{OwnerAddress: att.S(), OrderIds: []uint64{o.OrderId, ownPerp[0]}})
+			}
 			break
 		}
 	}
@@ -283,10 +310,14 @@ func victimStateCtx(w *chain.World, ctx sdk.Context, att string) string {
 	a := w.App
 	var sb strings.Builder
 	for _, o := range a.TradeshieldKeeper.GetAllPendingSpotOrder(ctx) {
-		sb.WriteString(o.String())
+		if o.OwnerAddress != att {
+			sb.WriteString(o.String())
+		}
 	}
 	for _, o := range a.TradeshieldKeeper.GetAllPendingPerpetualOrder(ctx) {
-		sb.WriteString(o.String())
+		if o.OwnerAddress != att {
+			sb.WriteString(o.String())
+		}
 	}
 	for _, m := range a.PerpetualKeeper.GetAllMTPs(ctx) {
 		if m.Address != att {
